@@ -237,9 +237,10 @@ template<class T>
 
     // ---- from floating point (values that are representable after truncation). The constructor first
     // stores the 24/53/64-bit significand in an `unsigned long long`-initialised object of the SAME width,
-    // so it needs Width2 >= 64; every multi-limb rep CNL builds is >= 136 bits wide, narrower
+    // which is then shifted arithmetically: it needs Width2 > 64 (a 64-bit signed object would read the
+    // long double significand as negative). Every multi-limb rep CNL builds is >= 136 bits wide; narrower
     // instantiations are an artefact of the small scope and are not judged here.
-    if constexpr (W >= 64)
+    if constexpr (W > 64)
     for_types(types<float, double, long double>{}, [&](auto ti) {
         using F = typename decltype(ti)::type;
         for (F x : float_probe_values<F>(W)) {
@@ -333,30 +334,21 @@ static void gA2()
     prog_vend_unary<wi::uintwide_t<16, std::uint8_t, void, false>>("vend16_unary<unsigned>", vend16_values(true), true);
 }
 VF_GROUP(gA2);
-#elif VF_PART == 3 || VF_PART == 7
-static void gL8()
+#elif VF_PART >= 100 && VF_PART < 300
+// lattice programs: 100 + i binary, 200 + i unary, i indexes the (width, limb) list
+#define C10_LAT(I, W, LIMB) \
+    if constexpr (VF_PART % 100 == I) vend_lattice_both<W, LIMB>(VF_PART < 200);
+static void gL()
 {
-    vend_lattice_both<24, std::uint8_t>(VF_PART == 3);
-    vend_lattice_both<32, std::uint8_t>(VF_PART == 3);
+    C10_LAT(0, 24, std::uint8_t)
+    C10_LAT(1, 32, std::uint8_t)
+    C10_LAT(2, 32, std::uint16_t)
+    C10_LAT(3, 48, std::uint16_t)
+    C10_LAT(4, 64, std::uint16_t)
+    C10_LAT(5, 64, std::uint32_t)
+    C10_LAT(6, 96, std::uint32_t)
+    C10_LAT(7, 128, std::uint32_t)
+    C10_LAT(8, 128, std::uint64_t)
 }
-VF_GROUP(gL8);
-#elif VF_PART == 4 || VF_PART == 8
-static void gL16()
-{
-    vend_lattice_both<64, std::uint16_t>(VF_PART == 4);
-    vend_lattice_both<48, std::uint16_t>(VF_PART == 4);
-    vend_lattice_both<32, std::uint16_t>(VF_PART == 4);
-}
-VF_GROUP(gL16);
-#elif VF_PART == 5 || VF_PART == 9
-static void gL32()
-{
-    vend_lattice_both<128, std::uint32_t>(VF_PART == 5);
-    vend_lattice_both<96, std::uint32_t>(VF_PART == 5);
-    vend_lattice_both<64, std::uint32_t>(VF_PART == 5);
-}
-VF_GROUP(gL32);
-#elif VF_PART == 6 || VF_PART == 10
-static void gL64() { vend_lattice_both<128, std::uint64_t>(VF_PART == 6); }
-VF_GROUP(gL64);
+VF_GROUP(gL);
 #endif
